@@ -12,6 +12,7 @@ INVARIANTS
   RestartsCounted
   PathOK
   FirstRequestMisses
+  CounterPersists
   HitIffStored
   ReportTruthful
   EmitInv
